@@ -252,6 +252,14 @@ fn expected_samples(calls: &[PCall]) -> Vec<(String, Vec<(String, String)>, Stri
     out
 }
 
+/// The same samples in the order of a `Target` that keeps one block per metric name (order of first appearance).
+fn grouped(calls: &[PCall]) -> Vec<(String, Vec<(String, String)>, String)> {
+    let head = |c: &PCall| format!("rotonda_{}_{}", c.name, unit_of(c.unit).1);
+    let mut names: Vec<String> = vec![];
+    for c in calls { if c.ty != 't' && !names.contains(&head(c)) { names.push(head(c)); } }
+    names.iter().flat_map(|n| expected_samples(&calls.iter().filter(|c| head(c) == *n).cloned().collect::<Vec<_>>())).collect()
+}
+
 fn run_pcase(calls: &[PCall]) -> (String, String, String, bool) {
     let case = pcase_line(calls);
     let text = match render_real(calls) { Ok(t) => t, Err(e) => return (case, e.clone(), format!("fail panic:metrics.rs:target-append {e}"), false) };
@@ -264,7 +272,7 @@ fn run_pcase(calls: &[PCall]) -> (String, String, String, bool) {
         None => if nasty { format!("fail {ESC_SIG} the text does not parse") } else { "fail prometheus-text-unparsable".to_string() },
         Some(ls) => {
             let got: Vec<(String, Vec<(String, String)>, String)> = ls.iter().filter_map(|l| match l { PLine::Sample(n, v, x) => Some((n.clone(), v.clone().unwrap_or_default(), x.clone())), _ => None }).collect();
-            if got != want {
+            if got != want && got != grouped(calls) {
                 if nasty { format!("fail {ESC_SIG} the text parses into different labels than were supplied") } else { "fail prometheus-samples-differ".to_string() }
             } else if let Some(n) = duplicate_meta(ls) { format!("fail {DUP_SIG} {n}") } else { "ok".into() }
         }
@@ -284,7 +292,8 @@ enum Ev {
     Suspend(usize), Unsuspend(usize), Unsub(usize), Kill(usize),
 }
 
-const TEMPLATES: &[&str] = &["{sys_name}", "R{sys_name}", "bmp-{sys_name}-{router_ip}"];
+/// Template 3 contains a quote: an operator-supplied string that reaches the `router` label of the real unit.
+const TEMPLATES: &[&str] = &["{sys_name}", "R{sys_name}", "bmp-{sys_name}-{router_ip}", "r\"{sys_name}"];
 fn label_of(tmpl: usize, ingress_id: u32) -> String {
     TEMPLATES[tmpl].replace("{sys_name}", &ingress_id.to_string()).replace("{router_ip}", "IP").replace("{router_port}", "PORT")
 }
@@ -327,7 +336,7 @@ enum LinkObj { Q(Link), D(DirectLink) }
 struct LinkRef { obj: LinkObj, connected: bool, flag: bool, alive: bool, seen: usize, sink: Option<Arc<Sink>> }
 
 #[derive(Clone, Default, PartialEq, Debug)]
-struct Snap { acc: u64, lost: u64, bound: u64, clients: Option<u64>, g: (u64, u64, u64, bool), routers: BTreeMap<usize, [u64; 10]>, slots: (usize, usize), problems: Vec<String> }
+struct Snap { acc: u64, lost: u64, bound: u64, clients: Option<u64>, g: (u64, u64, u64, bool), routers: BTreeMap<usize, [u64; 10]>, slots: (usize, usize), problems: Vec<String>, unescaped: Option<String> }
 
 fn show_snap(s: &Snap) -> String {
     let cl = s.clients.map(|c| c.to_string()).unwrap_or("P".into());
@@ -349,7 +358,17 @@ fn snapshot(w: &World, labels: &BTreeMap<String, usize>) -> Snap {
     s.g = (w.gate_metrics.num_updates.load(SeqCst) as u64, w.gate_metrics.num_dropped_updates.load(SeqCst) as u64,
         w.gate_metrics.update_set_size.load(SeqCst) as u64, w.gate_metrics.update.load().is_some());
     s.slots = (w.gate_slots)();
-    let text = w.metrics_text();
+    let mut text = w.metrics_text();
+    if parse_text(&text).is_none() {
+        // a router label that needs escaping was written as it is: to read the values nevertheless, the harness
+        // escapes exactly those label strings itself (the oracle reports the unparsable text)
+        let mut fixed = text.clone();
+        for l in labels.keys().filter(|l| needs_escape(l)) {
+            let esc = l.replace('\\', "\\\\").replace('"', "\\\"").replace('\n', "\\n");
+            fixed = fixed.replace(&format!("router=\"{l}\""), &format!("router=\"{esc}\""));
+        }
+        if fixed != text && parse_text(&fixed).is_some() { s.unescaped = labels.keys().find(|l| needs_escape(l)).cloned(); text = fixed; }
+    }
     let Some(lines) = parse_text(&text) else {
         let bad = text.lines().find(|l| { let mut c: Vec<char> = l.chars().collect(); c.push('\n'); parse_line(&c).is_none() }).unwrap_or("?");
         s.problems.push(format!("prometheus-text-unparsable {}", bad.replace(' ', "_")));
@@ -366,7 +385,7 @@ fn snapshot(w: &World, labels: &BTreeMap<String, usize>) -> Snap {
             let lab = get("router")?;
             match labels.get(&lab) { Some(r) => Some(*r), None => { s.problems.push(format!("prometheus-unexpected-router-label {}", lab.replace(' ', "_"))); None } }
         };
-        let mut global = |s: &mut Snap, want: u64| if v != want as i64 { s.problems.push(format!("text-differs-from-atomic {name} {v} vs {want}")); };
+        let global = |s: &mut Snap, want: u64| if v != want as i64 { s.problems.push(format!("text-differs-from-atomic {name} {v} vs {want}")); };
         match name.as_str() {
             "rotonda_num_updates_total" => { let x = s.g.0; global(&mut s, x) },
             "rotonda_num_dropped_updates_total" => { let x = s.g.1; global(&mut s, x) },
@@ -533,6 +552,7 @@ async fn world_case(tmpl: usize, evs: Vec<Ev>) -> WorldOut {
 
         // ---- the oracle
         out.unknown.extend(snap.problems.iter().cloned());
+        if let Some(l) = &snap.unescaped { out.known.push(format!("{ESC_SIG} the unit's exposition does not parse: router label {} written as it is", xhex(l))); }
         let live = conns.values().filter(|x| x.live).count() as u64;
         if snap.acc != conns.len() as u64 { out.unknown.push(format!("metrics-disagree:accepted {} want {}", snap.acc, conns.len())); }
         if snap.lost != conns.len() as u64 - live { out.unknown.push(format!("metrics-disagree:lost {} want {}", snap.lost, conns.len() as u64 - live)); }
@@ -612,7 +632,7 @@ fn run_wcase(tmpl: usize, evs: &[Ev], rec: &mut Recorder) -> Option<(String, Str
 const RM_OK: &[&str] = &["a1", "a3", "w1", "w2", "x2", "A2", "W1", "e4", "e6"];
 
 fn gen_world(rng: &mut Rng, long: bool) -> (usize, Vec<Ev>) {
-    let tmpl = if rng.chance(7, 10) { 0 } else { 1 + rng.below(2) as usize };
+    let tmpl = if rng.chance(7, 10) { 0 } else if rng.chance(1, 6) { 3 } else { 1 + rng.below(2) as usize };
     let len = if long { rng.range(40, 90) } else { rng.range(6, 40) } as usize;
     let nip = rng.range(1, 3) as usize;
     let share = rng.chance(1, 4); // allow a second live connection from an address that already has one
@@ -742,7 +762,11 @@ fn main() {
     emit_p(&[simple_call("u\nrotonda_fake 1", vec![])], &mut rec);
     emit_p(&[simple_call("u", vec![lv("a", "tail\\")])], &mut rec);
     // (c) two appends of one metric (what `append_per_router_metric` does per router)
-    emit_p(&[simple_call("u", vec![lv("router", "1")]), simple_call("u", vec![lv("router", "2")])], &mut rec);
+    let w = emit_p(&[simple_call("u", vec![lv("router", "1")]), simple_call("u", vec![lv("router", "2")])], &mut rec);
+    rec.variant("promgroup", if w.matches(&hex("# HELP rotonda_m_total")).count() >= 2 { "as-written" } else { "repaired" });
+    // two metrics interleaved, one of them with a suffix
+    emit_p(&[simple_call("u", vec![lv("router", "1")]), PCall { name: "n".into(), help: "h".into(), ty: 'h', unit: 0, unit_name: Some("u".into()), recs: vec![PRec { suffix: Some("count".into()), value: "3".into(), labels: None }] },
+        simple_call("v", vec![lv("router", "2")])], &mut rec);
     // (d) clean calls
     emit_p(&[simple_call("bmp-in", vec![lv("router", "2"), lv("msg_type", "Route Monitoring")]), PCall { name: "since_last_update".into(), help: "the number of seconds since the last update".into(), ty: 'g', unit: 0, unit_name: Some("bmp-in".into()), recs: vec![PRec { suffix: None, value: "-1".into(), labels: None }] },
         PCall { name: "last_update".into(), help: "the date and time of the last update".into(), ty: 't', unit: 6, unit_name: Some("bmp-in".into()), recs: vec![PRec { suffix: None, value: "N/A".into(), labels: None }] },
@@ -752,6 +776,8 @@ fn main() {
     let m = |c: usize, spec: Spec| Ev::Msg { c, spec };
     // (e) two live connections from one address: the end of one deletes the other's counters
     emit_w(0, &[Ev::Accept { c: 0, ip: 0 }, Ev::Accept { c: 1, ip: 0 }, m(0, Init), m(1, Init), Ev::Fault { c: 0, kind: 'e' }, m(1, Stats(0))], &mut rec);
+    // (e') the router id template of the configuration contains a quote: the real unit's exposition
+    emit_w(3, &[Ev::Accept { c: 0, ip: 0 }, m(0, Init), m(0, Stats(0))], &mut rec);
     // (f) one router, all event kinds, a link that comes, is suspended, resumed, dies
     emit_w(0, &[Ev::Accept { c: 0, ip: 0 }, m(0, PeerUp(0, true)), m(0, Init), m(0, PeerUp(0, true)), m(0, rm(0, "a3")), Ev::Sub { slot: 0, direct: true, susp: false }, m(0, rm(0, "w2")),
         Ev::Suspend(0), m(0, rm(0, "a1")), Ev::Unsuspend(0), m(0, rm(1, "a1")), Ev::Unparsed { c: 0 }, Ev::Fault { c: 0, kind: 'n' }, Ev::Kill(0), m(0, PeerDown(0)), m(0, Term),
